@@ -252,3 +252,7 @@ def run(ctx: Context) -> None:  # noqa: F811
     ctx.rep.rule('C09.R6', "the readability probe behind has_expired() polls the transport's OS socket on every backend, TLS or not")
     backend.extra_info_agreement(ctx, 'C09.R6')
     ctx.rep.explanation = (ctx.rep.explanation or '') + " R6 (transport layer): get_extra_info('is_readable') is a poll of the OS socket on every backend."
+    from . import plumb
+
+    ctx.rep.rule('C09.R7', 'the configured keepalive_expiry reaches every protocol connection unchanged (store link + pass link at every constructor call)')
+    plumb.plumbing(ctx, 'C09.R7', ['keepalive_expiry'])
